@@ -201,3 +201,42 @@ Theorem C18_source_const_transmute_body :
           "let a = ManuallyDrop :: new (a) ;";
           "ManuallyDrop :: into_inner (Union { a } . b)"].
 Proof. reflexivity. Qed.
+
+(* ---- T1: the signatures of this property's inherent methods / free functions as they stand in the source now
+        (coq/gen/GenSigs.v gen_fn_sigs): visibility, const / unsafe, generics, parameters, result, where-clause --
+        every function of the const API is declared `const fn` with these parameters and bounds ---- *)
+From Coq Require Import String.
+From GA Require Import SigDefs.
+From GAGen Require Import GenSigs.
+Local Open Scope string_scope.
+
+Theorem C18_source_signatures :
+  sig_of "GenericArray<T,N> where N:ArrayLength" "len" = Some "pub const fn len () -> usize" /\
+  sig_of "GenericArray<T,N> where N:ArrayLength" "as_slice" = Some "pub const fn as_slice (& self) -> & [T]" /\
+  sig_of "GenericArray<T,N> where N:ArrayLength" "as_mut_slice" = Some "pub const fn as_mut_slice (& mut self) -> & mut [T]" /\
+  sig_of "GenericArray<T,N> where N:ArrayLength" "from_slice" = Some "pub const fn from_slice (slice : & [T]) -> & GenericArray < T , N >" /\
+  sig_of "GenericArray<T,N> where N:ArrayLength" "try_from_slice" = Some "pub const fn try_from_slice (slice : & [T]) -> Result < & GenericArray < T , N > , LengthError >" /\
+  sig_of "GenericArray<T,N> where N:ArrayLength" "from_mut_slice" = Some "pub const fn from_mut_slice (slice : & mut [T]) -> & mut GenericArray < T , N >" /\
+  sig_of "GenericArray<T,N> where N:ArrayLength" "try_from_mut_slice" = Some "pub const fn try_from_mut_slice (slice : & mut [T] ,) -> Result < & mut GenericArray < T , N > , LengthError >" /\
+  sig_of "GenericArray<T,N> where N:ArrayLength" "chunks_from_slice" = Some "pub const fn chunks_from_slice (slice : & [T]) -> (& [GenericArray < T , N >] , & [T])" /\
+  sig_of "GenericArray<T,N> where N:ArrayLength" "chunks_from_slice_mut" = Some "pub const fn chunks_from_slice_mut (slice : & mut [T]) -> (& mut [GenericArray < T , N >] , & mut [T])" /\
+  sig_of "GenericArray<T,N> where N:ArrayLength" "slice_from_chunks" = Some "pub const fn slice_from_chunks (slice : & [GenericArray < T , N >]) -> & [T]" /\
+  sig_of "GenericArray<T,N> where N:ArrayLength" "slice_from_chunks_mut" = Some "pub const fn slice_from_chunks_mut (slice : & mut [GenericArray < T , N >]) -> & mut [T]" /\
+  sig_of "GenericArray<T,N> where N:ArrayLength" "from_array" = Some "pub const fn from_array < const U : usize > (value : [T ; U]) -> Self where Const < U > : IntoArrayLength < ArrayLength = N > ," /\
+  sig_of "GenericArray<T,N> where N:ArrayLength" "into_array" = Some "pub const fn into_array < const U : usize > (self) -> [T ; U] where Const < U > : IntoArrayLength < ArrayLength = N > ," /\
+  sig_of "GenericArray<T,N> where N:ArrayLength" "from_chunks" = Some "pub const fn from_chunks < const U : usize > (chunks : & [[T ; U]]) -> & [GenericArray < T , N >] where Const < U > : IntoArrayLength < ArrayLength = N > ," /\
+  sig_of "GenericArray<T,N> where N:ArrayLength" "from_chunks_mut" = Some "pub const fn from_chunks_mut < const U : usize > (chunks : & mut [[T ; U]]) -> & mut [GenericArray < T , N >] where Const < U > : IntoArrayLength < ArrayLength = N > ," /\
+  sig_of "GenericArray<T,N> where N:ArrayLength" "into_chunks" = Some "pub const fn into_chunks < const U : usize > (chunks : & [GenericArray < T , N >]) -> & [[T ; U]] where Const < U > : IntoArrayLength < ArrayLength = N > ," /\
+  sig_of "GenericArray<T,N> where N:ArrayLength" "into_chunks_mut" = Some "pub const fn into_chunks_mut < const U : usize > (chunks : & mut [GenericArray < T , N >]) -> & mut [[T ; U]] where Const < U > : IntoArrayLength < ArrayLength = N > ," /\
+  sig_of "GenericArray<T,N> where N:ArrayLength" "uninit" = Some "pub const fn uninit () -> GenericArray < MaybeUninit < T > , N >" /\
+  sig_of "GenericArray<T,N> where N:ArrayLength" "assume_init" = Some "pub const unsafe fn assume_init (array : GenericArray < MaybeUninit < T > , N >) -> Self" /\
+  sig_of "fn" "const_transmute" = Some "pub const unsafe fn const_transmute < A , B > (a : A) -> B" /\
+  sig_of "GenericArray<T,U> where Self:ConstDefault,T:ConstDefault,U:ArrayLength" "const_default" = Some "pub const fn const_default () -> Self" /\
+  sig_of "ArrayBuilder<T,N> where N:ArrayLength" "new" = Some "pub const fn new () -> ArrayBuilder < T , N >" /\
+  sig_of "ArrayBuilder<T,N> where N:ArrayLength" "is_full" = Some "pub const fn is_full (& self) -> bool" /\
+  sig_of "ArrayBuilder<T,N> where N:ArrayLength" "assume_init" = Some "pub const unsafe fn assume_init (self) -> GenericArray < T , N >" /\
+  sig_of "IntrusiveArrayBuilder<,T,N> where N:ArrayLength" "new" = Some "pub const fn new (array : & 'a mut GenericArray < MaybeUninit < T > , N > ,) -> IntrusiveArrayBuilder < 'a , T , N >" /\
+  sig_of "IntrusiveArrayBuilder<,T,N> where N:ArrayLength" "is_full" = Some "pub const fn is_full (& self) -> bool" /\
+  sig_of "IntrusiveArrayBuilder<,T,N> where N:ArrayLength" "finish" = Some "pub const unsafe fn finish (self)" /\
+  sig_of "ArrayConsumer<T,N> where N:ArrayLength" "new" = Some "pub const fn new (array : GenericArray < T , N >) -> ArrayConsumer < T , N >".
+Proof. repeat split. Qed.
